@@ -198,7 +198,7 @@ func C13(ctx *Ctx) {
 					continue
 				}
 				// passing (false) edge dominates the loop; failing edge returns non-nil without storing
-				if !b.Succs[1].Dominates(L.Header) {
+				if !edgeDominates(b, 1, L.Header) {
 					fail("guard", "an alignment test does not guard the loop")
 					return
 				}
@@ -431,11 +431,11 @@ func C13(ctx *Ctx) {
 						if cmp, ok := ref.(*ssa.BinOp); ok && (cmp.Op == token.NEQ || cmp.Op == token.EQL) {
 							for _, r2 := range *cmp.Referrers() {
 								if i2, ok := r2.(*ssa.If); ok {
-									edge := i2.Block().Succs[0]
+									k := 0
 									if cmp.Op == token.EQL {
-										edge = i2.Block().Succs[1]
+										k = 1
 									}
-									if edge.Dominates(x.Block()) {
+									if edgeDominates(i2.Block(), k, x.Block()) {
 										guarded = true
 									}
 								}
